@@ -1,4 +1,5 @@
 import Jasm.Proofs.Align
+import Jasm.Properties.C08
 /-!
 # C01 Instruction-sequence patterns match exactly the listings that contain them
 
@@ -281,5 +282,14 @@ example : windowAt ⟨false, true⟩ [⟨"mov".toList, ["%rsp".toList]⟩, ⟨"r
       match k, hk with
       | 0, _ => exact ⟨_, _, rfl, rfl, by decide⟩⟩
   | 1, _ => exact ⟨_, _, rfl, rfl, by decide, fun k hk => by simp at hk⟩
+
+/-- **C01 (from the listing text)**: composed with the parser theorem C08, the verdict on the text of
+a listing of the objdump grammar is decided by the instructions its instruction lines stand for -/
+theorem C01_end_to_end (fl : Flags) (caps : List Str) (items : List Item) (hne : items ≠ [])
+    (hlit : ∀ it ∈ items, it.Literal) (r : Rx) (hc : comp fl caps (rulePat items) = .ok r)
+    (ls : List LineSpec) (hls : ls ≠ []) (hwf : ∀ l ∈ ls, C08.LineSpec.WF l) (hA : OkA (expectedInsts ls)) :
+    ∃ L, (parseListing (renderListing ls) >>= processAll none) = .ok L ∧
+      ((search r (encAll L)).isSome = true ↔ ∃ n, windowAt fl items (expectedInsts ls) n) :=
+  ⟨expectedInsts ls, C08.C08_stream ls hls hwf, C01 fl caps items hne hlit r hc _ hA⟩
 
 end Jasm.C01
